@@ -145,3 +145,56 @@ contract(PV + "PolyAVerifier.detect_reference_exons_beyond_polya",
                             "(len(isoform_exons) - 2 - j, len(isoform_exons) - 2 - j)) for j in range(_k1))"]}},
          hints={"after:isoform_terminal_exon_length": ["slen_of_suffix(isoform_exons, len(isoform_exons) - terminal_exon_count, terminal_exon_count)"]},
          canary="result[1] == external_polya_pos")
+
+
+# ---- shift_polya / shift_polyt: the tail position recomputed when the read's terminal exons are fake ------------------------------------------
+@spec("list[tuple[int,int]], int, int -> int")
+def pa_dist(L, i, p):
+    # walking over the last i exons from the outside in: exons lying entirely beyond the polyA position add nothing, the first one reached
+    # adds the part up to the position, every further one its whole length
+    return 0 if i <= 0 else (pa_dist(L, i - 1, p) if L[len(L) - i][0] > p else
+                             (p - L[len(L) - i][0] if pa_dist(L, i - 1, p) == 0 else pa_dist(L, i - 1, p) + (L[len(L) - i][1] - L[len(L) - i][0] + 1)))
+
+
+@spec("list[tuple[int,int]], int, int -> int")
+def pt_dist(L, i, p):
+    # the mirror image: the first i exons, exon ends instead of exon starts
+    return 0 if i <= 0 else (pt_dist(L, i - 1, p) if L[i - 1][1] < p else
+                             (L[i - 1][1] - p if pt_dist(L, i - 1, p) == 0 else pt_dist(L, i - 1, p) + (L[i - 1][1] - L[i - 1][0] + 1)))
+
+
+# the reflection statement itself: for M the mirror image of L about c, the polyT-side distance of M equals the polyA-side distance of L
+lemma("shift_dist_mirror", {"L": IVS, "M": IVS, "c": "int", "i": "int", "p": "int"}, props=["C11"],
+      requires=["len(M) == len(L)", "0 <= i <= len(L)",
+                "all(M[j][0] == c - L[len(L) - 1 - j][1] and M[j][1] == c - L[len(L) - 1 - j][0] for j in range(len(L)))"],
+      ensures=["pt_dist(M, i, c - p) == pa_dist(L, i, p)"], induct="i", base="0")
+
+
+def _gen_shift(rng, n):
+    for _ in range(n):
+        k = rng.randint(1, 5)
+        ex, p = [], rng.randint(0, 20)
+        for _i in range(k):
+            a = p + rng.randint(1, 30)
+            b = a + rng.randint(0, 30)
+            ex.append((a, b))
+            p = b
+        pts = [-1] + [e[j] + d for e in ex for j in (0, 1) for d in (-1, 0, 1)]
+        yield {"read_exons": ex, "exon_count": rng.randint(0, k), "polya_pos": rng.choice(pts), "polyt_pos": rng.choice(pts)}
+
+
+contract(PV + "shift_polya", {"read_exons": IVS, "exon_count": "int", "polya_pos": "int"}, returns="int", props=["C11", "C16"],
+         requires=["len(read_exons) >= 1", "0 <= exon_count <= len(read_exons)"],
+         ensures=["result == (polya_pos if exon_count == 0 or exon_count == len(read_exons) or polya_pos == -1 else "
+                  "read_exons[len(read_exons) - exon_count - 1][1] + pa_dist(read_exons, exon_count, polya_pos))"],
+         loops={0: {"inv": ["dist_to_polya == pa_dist(read_exons, _k0, polya_pos)"]}},
+         gen=lambda rng, n: ({k: v for k, v in d.items() if k != "polyt_pos"} for d in _gen_shift(rng, n)),
+         canary="result == polya_pos")
+
+contract(PV + "shift_polyt", {"read_exons": IVS, "exon_count": "int", "polyt_pos": "int"}, returns="int", props=["C11", "C16"],
+         requires=["len(read_exons) >= 1", "0 <= exon_count <= len(read_exons)"],
+         ensures=["result == (polyt_pos if exon_count == 0 or exon_count == len(read_exons) or polyt_pos == -1 else "
+                  "read_exons[exon_count][0] - pt_dist(read_exons, exon_count, polyt_pos))"],
+         loops={0: {"inv": ["dist_to_polya == pt_dist(read_exons, _k0, polyt_pos)"]}},
+         gen=lambda rng, n: ({k: v for k, v in d.items() if k != "polya_pos"} for d in _gen_shift(rng, n)),
+         canary="result == polyt_pos")
